@@ -1160,6 +1160,17 @@ class VM:
         if isinstance(b, bool):
             return self._abstract_equals(a, 1 if b else 0)
 
+        # Two objects are equal only when they are the same object; an object
+        # against a primitive is compared through its valueOf / toString
+        a_obj = isinstance(a, (JSObject, JSFunction))
+        b_obj = isinstance(b, (JSObject, JSFunction))
+        if a_obj and b_obj:
+            return a is b
+        if a_obj and isinstance(b, (str, int, float)):
+            return self._abstract_equals(self._to_primitive(a), b)
+        if b_obj and isinstance(a, (str, int, float)):
+            return self._abstract_equals(a, self._to_primitive(b))
+
         return False
 
     def _get_property(self, obj: JSValue, key: JSValue) -> JSValue:
